@@ -6,7 +6,11 @@ import (
 	"fmt"
 	"io"
 	"math/rand"
+	"os"
+	"os/exec"
+	"runtime"
 	"strings"
+	"sync"
 	"testing"
 	"time"
 
@@ -26,6 +30,72 @@ type c16In struct {
 	Routing bool
 	Descs   [][2]string
 	OneCall bool
+	// concurrent negotiations: Stress > 0 runs the matcher from many goroutines for Stress milliseconds in a
+	// child process (a runtime fatal error such as "concurrent map writes" cannot be recovered in-process)
+	Stress int
+}
+
+// TestVerifC16Child is the body of the stress child process; it does nothing unless started by the driver.
+func TestVerifC16Child(t *testing.T) {
+	ms := os.Getenv("VERIF_C16_STRESS_MS")
+	if ms == "" {
+		t.Skip("child of TestVerifC16 only")
+	}
+	var d int
+	fmt.Sscanf(ms, "%d", &d)
+	if runtime.GOMAXPROCS(0) < 4 {
+		runtime.GOMAXPROCS(4)
+	}
+	deadline := time.Now().Add(time.Duration(d) * time.Millisecond)
+	var wg sync.WaitGroup
+	bad := make(chan string, 64)
+	for g := 0; g < 16; g++ {
+		wg.Add(1)
+		go func(g int) {
+			defer wg.Done()
+			names := []string{"preconf", "discovery", "handshake", "alpha"}
+			for i := 0; time.Now().Before(deadline); i++ {
+				M, m, p := uint64(g%3), uint64((i*7+g)%50), uint64(i%1000+g*1000)
+				HM, Hm := uint64((g+i)%3), uint64((i*3)%50)
+				n := names[(g+i)%len(names)]
+				hn := names[(i/5)%len(names)]
+				got, _ := matchProtocolIDWithSemver(fmt.Sprintf("/%s/%d.%d.%d", n, M, m, p), hn, fmt.Sprintf("%d.%d.%d", HM, Hm, i%7))
+				want := n == hn && M == HM && m <= Hm
+				if got != want {
+					select {
+					case bad <- fmt.Sprintf("/%s/%d.%d.%d vs %s %d.%d.x: got %v want %v", n, M, m, p, hn, HM, Hm, got, want):
+					default:
+					}
+				}
+			}
+		}(g)
+	}
+	wg.Wait()
+	select {
+	case b := <-bad:
+		fmt.Println("C16STRESS WRONG " + b)
+		t.Fatalf("wrong verdict under concurrency: %s", b)
+	default:
+		fmt.Println("C16STRESS OK")
+	}
+}
+
+// c16Stress: 0 = all verdicts right, 1 = a wrong verdict under concurrency, 2 = the child crashed
+func c16Stress(ms int) (int, string) {
+	cmd := exec.Command(os.Args[0], "-test.run=^TestVerifC16Child$", "-test.count=1")
+	cmd.Env = append(os.Environ(), fmt.Sprintf("VERIF_C16_STRESS_MS=%d", ms), "VERIF_OUT=")
+	out, err := cmd.CombinedOutput()
+	txt := string(out)
+	if strings.Contains(txt, "C16STRESS OK") && err == nil {
+		return 0, ""
+	}
+	if strings.Contains(txt, "C16STRESS WRONG") {
+		return 1, txt[strings.Index(txt, "C16STRESS WRONG"):]
+	}
+	if len(txt) > 600 {
+		txt = txt[:600]
+	}
+	return 2, txt
 }
 
 type c16Reg struct{}
@@ -168,6 +238,20 @@ func TestVerifC16(t *testing.T) {
 		return coqList(items)
 	}
 	run := func(class string, in c16In) {
+		if in.Stress > 0 {
+			res, note := c16Stress(in.Stress * e.Slow)
+			// encoded as a function-level case on an identifier that must match: 1 = fine, 0 = wrong verdict, 2 = crash
+			obs := map[int]int{0: 1, 1: 0, 2: 2}[res]
+			type stressObs struct {
+				Res  int
+				Note string
+			}
+			e.Emit(class, in, stressObs{res, note}, func(id int) string {
+				return coqRecord("id", coqN(uint64(id)), "kind", "0%N", "descs", "[]", "incoming", coqStr("/preconf/1.0.0"), "hname", coqStr("preconf"),
+					"supported", coqStr("1.0.0"), "obs", coqN(uint64(obs)))
+			})
+			return
+		}
 		if in.Routing {
 			parts := strings.SplitN(strings.TrimPrefix(string(in.Incoming), "/"), "/", 2)
 			if len(parts) != 2 {
@@ -220,6 +304,12 @@ func TestVerifC16(t *testing.T) {
 			routing([][2]string{{"p", "1.0.0"}, {"q", "1.0.0"}, {"r", "1.0.0"}, {"s", "1.0.0"}}, true,
 				[][2]string{{"p", "1.0.0"}, {"q", "1.0.0"}, {"r", "1.0.0"}, {"s", "1.0.0"}, {"s", "1.1.0"}, {"t", "1.0.0"}})
 		}
+	}
+	// concurrent negotiations (child process): a crash or a wrong verdict under concurrency is a violation
+	if e.Tier == "thorough" {
+		run("concurrent", c16In{Stress: 4000})
+	} else {
+		run("concurrent", c16In{Stress: 1200})
 	}
 	// exhaustive small range: components in [0,K]^6, K by tier
 	K := 2
